@@ -501,6 +501,29 @@ func gen(tier string, seed int64) []mon.Case {
 				}
 			}
 		}
+		// customised levels (patterns edited in place + UpdatePrivileges / level map shared by two
+		// drivers) and two drivers from one Platform object
+		for i, n := range names {
+			lv := keysOf(canon[n].Levels)
+			for j, mode := range []string{"update", "shared"} {
+				d := Dyn{Source: "asset", Platform: n, Custom: hostileHosts[(i+j+k)%len(hostileHosts)], CustomMode: mode, Start: lv[(k+j)%len(lv)],
+					From: canon[n].Default, Targets: rotate(lv, k+j), CloseAt: lv[(k+1+j)%len(lv)]}
+				d.Kind = "custom"
+				d.Seg, d.NL, d.ReadSize = genSeg(r)
+				add(fmt.Sprintf("c17/custom/%s/%s#%02d", n, mode, k), d)
+			}
+			modes := []string{"transport1", "transport3"}
+			if k == 0 {
+				modes = append(modes, "fields")
+			}
+			for j, mode := range modes {
+				d := Dyn{Source: "asset", Platform: n, TwoMode: mode, Start: lv[(k+j+1)%len(lv)], From: canon[n].Default, Targets: rotate(lv, k+j),
+					CloseAt: lv[(k+j)%len(lv)]}
+				d.Kind = "two"
+				d.Seg, d.NL, d.ReadSize = genSeg(r)
+				add(fmt.Sprintf("c17/two-drivers/%s/%s#%02d", n, mode, k), d)
+			}
+		}
 		// the base definition must drive its device after a variant was loaded in the same process
 		dyn("cumulus_linux/after-variant-root_login", Dyn{Source: "asset", Platform: "cumulus_linux", Preload: "root_login", Start: "configuration", From: "exec",
 			Targets: []string{"configuration"}, CloseAt: "configuration"})
@@ -520,6 +543,14 @@ func run(c mon.Case) mon.Result {
 		Kind string `json:"kind"`
 	}
 	c.Decode(&k)
+	if k.Kind == "custom" || k.Kind == "two" {
+		var d Dyn
+		c.Decode(&d)
+		if k.Kind == "custom" {
+			return RunCustom(d)
+		}
+		return RunTwo(d)
+	}
 	if k.Kind == "overlap" {
 		var d Dyn
 		c.Decode(&d)
@@ -567,6 +598,8 @@ func init() {
 			"generator preconditions checked by brute force with the definition's own patterns: the device's error line and every proper prefix of a canonical prompt are not accepted as a (different) prompt by the joined pattern; otherwise the session is inconclusive",
 			"the relation (level A's canonical prompt, other level B accepting it) of every shipped definition is pinned (= Appendix A 'also accepted by' plus the pairs inside classes of identical prompts); any change is reported. The overlaps themselves are a limitation of the definitions, not judged: a fresh session (empty cached level) opened on a device already in such a level takes it for the default desired level (observed and recorded per pinned overlap, see fresh_session_on_overlapping_level_witnesses)",
 			"load-order sequences (base-variant-base, variant-base, base-base on two hosts, variant-variant, variant-base-variant-base; by name for shipped variants, from bytes for generated ones) judge observable differences only: every result is re-compared with the independent reading after each later load, must keep its own host/transport/driver, and altering one result (levels, failure strings, steps, options, driver fields) must leave the others and fresh loads equal to the definition; a library-internal cache as such is not judged",
+			"customised-levels sessions: the definition's own level objects get an alternative appended to their patterns in place (the canonical prompt with the hostname replaced by one of 4 hostile-but-legal names), refreshed by UpdatePrivileges() on the same driver or handed to a second driver through options.WithPrivilegeLevels after a first driver used the same map; judged by the ordinary oracle (joined pattern and per-level patterns consistent, on-open/on-close seen, all pairs reached)",
+			"two-drivers sessions: every option list is append(p.AsOptions(), user options) on ONE *Platform and all lists exist before any driver is built (1 or 3 user options per list; getter calls interleaved); each driver must carry its own transport / default level / failure strings / port and drive its own device; that AsOptions reflects later edits of the Platform's fields is not judged (not stated by the property)",
 			"generated variants define only non-empty sections; a section that is present but empty is outside the checked merge semantics",
 			"a timeout counts only if every generated byte had been delivered and the load canary is healthy",
 		},
